@@ -67,7 +67,7 @@ def main():
     finally:
         sh(['git', 'checkout', '--', '.'], cwd=wt)
         # restore generated files / proofs for the clean tree
-    confirmed = a.skip_confirm or (res.get('demo_clean_exit') == 0 and res.get('demo_mutated_exit', 0) != 0 and res.get('tests_passed') == 71)
+    confirmed = a.skip_confirm or (res.get('demo_clean_exit') == 0 and res.get('demo_mutated_exit', 0) != 0 and res.get('tests_passed', 0) >= 71)   # an environment-failing test may start to pass (72)
     res['confirmed'] = confirmed
     caught = any(c['violation'] for c in res['checks'].values())
     res['caught'] = caught
